@@ -63,4 +63,6 @@ def main(tier, only=None):
     return chk.finish()
 
 
-replay = vf.generic_replay
+def replay(path):
+    import e1replay
+    return e1replay.replay_with(path)
